@@ -148,6 +148,7 @@ def real_sampler_part(chk, env, n_steps):
             case = {"kind": "real-sampler", "model": name, "kw": kw, "sampler_pop": pop_kind, "seed": chk.seed, "steps": n_steps}
             try:
                 model, st, ds = sc.real_state(env, name, kw)
+                case["fractional_weights"] = bool(rng.random() < 0.5 and sc.fractional_weights(env, rng, st))
                 with core.quiet():
                     algo = algorithm_factory(AlgorithmSettings("mcmc_saem", n_iter=10, seed=chk.seed, progress_bar=False, sampler_pop=pop_kind))
                     st.auto_fork_type = env["StateForkType"].REF
